@@ -41,6 +41,16 @@ func runC09(c *fw.Ctx, idx int) fw.Result {
 		prof.MaxQueries = r.Range(20, 120)
 	}
 	in := gen.MakeUpdown(r, prof)
+	if r.Chance(0.2) {
+		// a reference with alignment gaps or ambiguity codes in a few columns (accepted with a
+		// warning): whatever such a column means, it must mean the same on the CSV and FASTA paths
+		rb := []byte(in.Ref)
+		for k := 0; k < r.Range(1, 3); k++ {
+			rb[r.Intn(len(rb))] = "--NR"[r.Intn(4)]
+		}
+		in.Ref = string(rb)
+		res.Count("cases_with_gap_or_ambiguity_in_reference", 1)
+	}
 	o, mode := randomUDOpts(r, in)
 	W := len(in.Ref)
 	refTxt := gen.RefFasta("root", in.Ref, gen.PickLineWidth(r, W))
